@@ -557,13 +557,23 @@ func (p *Path) goStmt(fr *frame, in *ssa.Go) {
 	// whose effects are outside the claim; recorded in the evidence).
 	if callee := in.Call.StaticCallee(); callee != nil && p.hr != nil {
 		name := "go:" + callee.String()
-		_, ok := p.hr.overrides[name]
+		ov, ok := p.hr.overrides[name]
 		for _, po := range p.hr.prefixOverrides {
 			if strings.HasPrefix(name, po.prefix) && strings.HasPrefix(po.prefix, "go:") {
-				ok = true
+				ov, ok = po.fn, true
 			}
 		}
 		if ok {
+			if _, inl := ov(p, nil, nil).(goInline); inl {
+				// "go:<callee>": "inline" - run the goroutine to completion right here.
+				// Exact as long as it never blocks: a channel operation that would
+				// block aborts the path (sequential channel model), so nothing that
+				// needs real interleaving is ever reported as decided.
+				p.hr.noteOutside("goroutine executed synchronously at its go statement (suite override; paths where it would block are refused): " + callee.String())
+				fn, args := p.prepareCall(fr, &in.Call)
+				p.callValue(fr, fn, args, &in.Call)
+				return
+			}
 			p.hr.noteOutside("goroutine not executed (suite override): " + callee.String())
 			return
 		}
@@ -576,6 +586,9 @@ func (p *Path) chanSend(fr *frame, in *ssa.Send) {
 	ch, ok := p.get(fr, in.Chan).(*ChanObj)
 	if !ok || ch == nil {
 		panic(p.abort("send on nil/unknown channel"))
+	}
+	if ch.Closed {
+		panic(&goPanic{msg: "send on closed channel", stack: p.where()})
 	}
 	if len(ch.Buf) >= ch.Cap {
 		panic(p.abort("send would block (sequential channel model)"))
